@@ -49,6 +49,7 @@ type TierBounds struct {
 	MaxPaths    int            `json:"max_paths"`
 	Preemptions int            `json:"preemptions"`
 	TimerFires  int            `json:"timer_fires"`
+	HorizonMS   int            `json:"timer_horizon_ms"` // timers with a longer known duration never fire (0 = any timer may fire)
 	Alloc       int            `json:"alloc"`
 	TimeoutS    int            `json:"solver_timeout_s"`
 	DeadlineS   int            `json:"deadline_s"`
@@ -409,6 +410,9 @@ func tierOf(h *Harness, tier string) TierBounds {
 		if t.TimerFires == 0 {
 			t.TimerFires = b.TimerFires
 		}
+		if t.HorizonMS == 0 {
+			t.HorizonMS = b.HorizonMS
+		}
 		if t.Alloc == 0 {
 			t.Alloc = b.Alloc
 		}
@@ -542,7 +546,7 @@ func check(id, tier string) int {
 				want[l] = true
 			}
 			opts := exec.ExploreOpts{Entry: h.Entry, MaxPaths: b.MaxPaths, Alloc: b.Alloc, Seed: int64(seed),
-				Limits: exec.Limits{MaxSteps: b.MaxSteps, Preemptions: b.Preemptions, TimerFires: b.TimerFires, WantWitness: want, Params: b.Params}}
+				Limits: exec.Limits{MaxSteps: b.MaxSteps, Preemptions: b.Preemptions, TimerFires: b.TimerFires, TimerHorizonNS: int64(b.HorizonMS) * 1e6, WantWitness: want, Params: b.Params}}
 			if v := os.Getenv("GOSYM_MAXRUNS"); v != "" {
 				opts.MaxPaths, _ = strconv.Atoi(v)
 			}
@@ -954,7 +958,7 @@ func replay(path string) int {
 				fmt.Println(err)
 				return 2
 			}
-			opts := exec.ExploreOpts{Entry: h.Entry, Alloc: bnd.Alloc, Limits: exec.Limits{MaxSteps: bnd.MaxSteps, Preemptions: bnd.Preemptions, TimerFires: bnd.TimerFires, Params: rs.Params}}
+			opts := exec.ExploreOpts{Entry: h.Entry, Alloc: bnd.Alloc, Limits: exec.Limits{MaxSteps: bnd.MaxSteps, Preemptions: bnd.Preemptions, TimerFires: bnd.TimerFires, TimerHorizonNS: int64(bnd.HorizonMS) * 1e6, Params: rs.Params}}
 			ok := reexec(prog, opts, exec.Violation{Harness: rs.Entry, Label: rs.Label, Kind: rs.Kind, Trace: rs.Trace})
 			if ok {
 				fmt.Printf("REPRODUCED (engine re-execution under the recorded schedule) property=%s harness=%s label=%s %s\n", rs.Property, rs.Entry, rs.Label, rs.Msg)
